@@ -214,15 +214,14 @@ Qed.
 End Link.
 
 (* the completeness half: stop() called after all producers are done, stop() has returned, no
-   push fell into the window, no program submits the marker *)
+   program submits the marker *)
 Lemma c28_oracle_complete_lemma : forall m ps s1 s2,
   NoDup (concat (map (must_write m) ps)) -> no_marker m ps = true ->
   stopper (run s1 (init m ps)) = SIdle -> all_done (run s1 (init m ps)) = true ->
   stopper (run s2 (step (run s1 (init m ps)) Stop)) = SDone ->
-  win (run s2 (step (run s1 (init m ps)) Stop)) = [] ->
   file_complete m ps (observe (run s2 (step (run s1 (init m ps)) Stop))) = true.
 Proof.
-  intros m ps s1 s2 Hd NM Hidle Hdone Hs Hw.
+  intros m ps s1 s2 Hd NM Hidle Hdone Hs.
   assert (E : run s2 (step (run s1 (init m ps)) Stop) = run (s1 ++ Stop :: s2) (init m ps))
     by (unfold run; rewrite fold_left_app; reflexivity).
   unfold file_complete. cbn [observe o_file o_stopped]. rewrite Hs. cbn [andb].
@@ -230,7 +229,7 @@ Proof.
   apply forallb_forall. intros l Hl. apply In_nth with (d := []) in Hl. destruct Hl as [i [Hi <-]].
   rewrite R2 in Hi. destruct (nth_error ps i) as [p|] eqn:Ep; [|apply nth_error_None in Ep; lia].
   specialize (R3 i). rewrite nth_must_write, Ep in R3.
-  pose proof (c28_all_written_done_lemma m ps s1 s2 NM Hidle Hdone Hs Hw i p Ep) as A. rewrite E in A.
+  pose proof (c28_all_written_done_lemma m ps s1 s2 NM Hidle Hdone Hs i p Ep) as A. rewrite E in A.
   rewrite A, <- (must_write_elems m i p 0) in R3.
   destruct (nth i R []) as [|x xs]; [reflexivity|]. exfalso.
   assert (L : length (must_write m p) = length (must_write m p ++ x :: xs)) by (rewrite <- R3; reflexivity).
@@ -242,11 +241,10 @@ Lemma c28_oracle_ok_lemma : forall m ps s1 s2,
   NoDup (concat (map (must_write m) ps)) -> no_marker m ps = true ->
   stopper (run s1 (init m ps)) = SIdle -> all_done (run s1 (init m ps)) = true ->
   stopper (run s2 (step (run s1 (init m ps)) Stop)) = SDone ->
-  win (run s2 (step (run s1 (init m ps)) Stop)) = [] ->
   c28_ok m ps (observe (run s2 (step (run s1 (init m ps)) Stop))) = true.
 Proof.
-  intros m ps s1 s2 Hd NM Hidle Hdone Hs Hw. unfold c28_ok.
-  rewrite (c28_oracle_complete_lemma m ps s1 s2 Hd NM Hidle Hdone Hs Hw).
+  intros m ps s1 s2 Hd NM Hidle Hdone Hs. unfold c28_ok.
+  rewrite (c28_oracle_complete_lemma m ps s1 s2 Hd NM Hidle Hdone Hs).
   assert (E : run s2 (step (run s1 (init m ps)) Stop) = run (s1 ++ Stop :: s2) (init m ps))
     by (unfold run; rewrite fold_left_app; reflexivity).
   rewrite E. rewrite (c28_oracle_sound_lemma m ps (s1 ++ Stop :: s2) Hd). cbn [andb].
@@ -260,8 +258,9 @@ Proof.
       { unfold all_done in Hc. rewrite forallb_forall in Hc. specialize (Hc st (nth_error_In _ _ Est)).
         destruct (todo st); [reflexivity|discriminate]. }
       rewrite H. exact Hc.
-    - unfold step_cons. destruct (cons c); [destruct (queue c) as [|x q']; [exact Hc|destruct (q_text x); exact Hc]
-                                           |destruct (stopping c); exact Hc|exact Hc|exact Hc].
+    - unfold step_cons. destruct (cons c) as [|s0|x|]; [exact Hc
+                                           |destruct (queue c) as [|x q']; [destruct s0; exact Hc|destruct (q_text x); exact Hc]
+                                           |exact Hc|exact Hc].
     - unfold step_stop. destruct (stopper c); [exact Hc|exact Hc|destruct (cons c); exact Hc|exact Hc]. }
   apply G. cbn [step]. unfold step_stop. rewrite Hidle. exact Hdone.
 Qed.
